@@ -85,6 +85,45 @@ func c20Replacements() []any {
 	}
 }
 
+// c20ChainEdges are the ways a schema can refer to the next one of a chain, once or twice.
+var c20ChainEdges = []struct {
+	name  string
+	build func(next map[string]any, fan int) map[string]any
+}{
+	{"allOf", func(nx map[string]any, f int) map[string]any { return map[string]any{"allOf": c20Rep(nx, f)} }},
+	{"anyOf", func(nx map[string]any, f int) map[string]any { return map[string]any{"anyOf": c20Rep(nx, f)} }},
+	{"oneOf", func(nx map[string]any, f int) map[string]any { return map[string]any{"oneOf": c20Rep(nx, f)} }},
+	{"properties", func(nx map[string]any, f int) map[string]any {
+		ps := map[string]any{"a": nx}
+		if f > 1 {
+			ps["b"] = nx
+		}
+		return map[string]any{"type": "object", "properties": ps}
+	}},
+	{"items+not", func(nx map[string]any, f int) map[string]any {
+		s := map[string]any{"type": "array", "items": nx}
+		if f > 1 {
+			s["not"] = nx
+		}
+		return s
+	}},
+	{"additionalProperties+allOf", func(nx map[string]any, f int) map[string]any {
+		s := map[string]any{"type": "object", "additionalProperties": nx}
+		if f > 1 {
+			s["allOf"] = []any{nx}
+		}
+		return s
+	}},
+}
+
+func c20Rep(v map[string]any, n int) []any {
+	out := make([]any, n)
+	for i := range out {
+		out[i] = v
+	}
+	return out
+}
+
 // c20Slot is one place of an object kind that can hold a reference (OAS 3.0.3 grammar); build wraps the reference
 // into the keys to set on the host object.
 type c20Slot struct {
@@ -210,7 +249,7 @@ func init() {
 		ID: "C20",
 		Rule: "family node: the skeleton document with each JSON node (all ~1100) replaced by each of 46 replacement values (scalars, containers, 34 adversarial $ref forms incl. every wrong-kind component, pointers drilling through structs/maps/slices/scalars, missing/garbage/self files) or deleted; " +
 			"family prefix: every byte prefix of the compact skeleton; family flip: every structural byte ({}[]:,\") replaced by each other structural byte (thorough) / every 7th (quick); family yaml: the node replacements rendered as YAML (thorough: all, quick: $ref adversaries only) and 25 YAML-only token documents; " +
-			"family graft: at every object of the skeleton (all kinds incl. operations, media types, encodings) a reference to the object itself or to each of its referenceable ancestors is grafted into each reference slot of the object's kind (self-containing callbacks, schemas composed of themselves, headers pointing to the response they are in); family forest: every C02 forest (all shapes incl. cycles and bad references). x entry point {LoadFromData, LoadFromDataWithPath} x external refs allowed/disallowed. After a successful load: Validate (two option sets), json.Marshal, yaml.Marshal, InternalizeRefs, json.Marshal. non-trivial = the mutated bytes still parse as JSON/YAML (the loader proper is reached)",
+			"family graft: at every object of the skeleton (all kinds incl. operations, media types, encodings) a reference to the object itself or to each of its referenceable ancestors is grafted into each reference slot of the object's kind (self-containing callbacks, schemas composed of themselves, headers pointing to the response they are in); family chain: acyclic chains of 8/24/48 component schemas, every level referring to the next once or twice through each edge type (shared sub-schemas must not be revisited per path); family forest: every C02 forest (all shapes incl. cycles and bad references). x entry point {LoadFromData, LoadFromDataWithPath} x external refs allowed/disallowed. After a successful load: Validate (two option sets), json.Marshal, yaml.Marshal, InternalizeRefs, json.Marshal. non-trivial = the mutated bytes still parse as JSON/YAML (the loader proper is reached)",
 		Assumptions: []string{
 			"termination is decided by the instrumented step budget (1e6 steps, 15x the largest terminating execution observed) and, for dependencies, by the 120 s per-execution watchdog",
 			"a worker that dies (stack overflow, fatal error) is attributed to the choice vector it was executing",
@@ -228,7 +267,7 @@ func init() {
 		Body: func(r *core.Run, x *explore.X) {
 			prep()
 			thorough := r.Tier == "thorough"
-			family := explore.Pick(x, []string{"node", "prefix", "flip", "yaml", "yamltok", "forest", "graft"})
+			family := explore.Pick(x, []string{"node", "prefix", "flip", "yaml", "yamltok", "forest", "graft", "chain"})
 			var c c20Case
 			c.family = family
 			var forest *Forest
@@ -247,6 +286,10 @@ func init() {
 				ri = x.Choose(7)
 			case "forest":
 				forest = GenForest(x, thorough)
+			case "chain":
+				pi = x.Choose(len(c20ChainEdges))
+				ri = x.Choose(3) // depth 8, 24, 48
+				n = x.Choose(2)  // fan-out 1, 2
 			case "graft":
 				pi = x.Choose(len(graftPos))
 				ri = x.Choose(len(c20Slots[graftPos[pi].Kind]))
@@ -321,6 +364,24 @@ func init() {
 				forest = forest.Build()
 				c.data, _ = json.Marshal(forest.Files[forest.RootLoc])
 				c.desc = "forest " + forest.Signature()
+			case "chain":
+				// an acyclic chain of component schemas, every level referring to the next one once or twice through one
+				// edge type: shared sub-schemas must be visited once, not once per path (2^48 paths)
+				depth := []int{8, 24, 48}[ri]
+				edge := c20ChainEdges[pi]
+				schemas := map[string]any{}
+				for i := 0; i <= depth; i++ {
+					name := fmt.Sprintf("S%02d", i)
+					if i == depth {
+						schemas[name] = map[string]any{"type": "string"}
+						continue
+					}
+					next := map[string]any{"$ref": fmt.Sprintf("#/components/schemas/S%02d", i+1)}
+					schemas[name] = edge.build(next, n+1)
+				}
+				doc := map[string]any{"openapi": "3.0.3", "info": map[string]any{"title": "t", "version": "1"}, "paths": map[string]any{}, "components": map[string]any{"schemas": schemas}}
+				c.desc = fmt.Sprintf("chain of %d schemas through %s, fan-out %d", depth, edge.name, n+1)
+				c.data, _ = json.Marshal(doc)
 			case "graft":
 				// a reference to the object itself or to one of its ancestors, grafted into one of the object's reference slots
 				pos := graftPos[pi]
